@@ -1,6 +1,6 @@
 (* C17/Model.v — executable model of cflib/positioning/motion_commander.py (MotionCommander +
    _SetPointThread) and position_hl_commander.py (PositionHlCommander), over exact rationals (Q), in
-   virtual time, with the land() repairs F17a/F17b applied (try/finally around the descent).
+   virtual time, with the repairs F17a/F17b (land(): try/finally around the descent) and F17c (go_to guarded by _is_flying).
 
    Numbers: Python floats are idealised as rationals; decimal literals of the source denote their decimal
    value.  `math.sqrt` and `math.pi` are parameters of the model (record `env`): the control-flow theorems
@@ -212,6 +212,7 @@ Inductive op :=
 | OStartLinear (vx vy vz : Q) (yaw : option Q)
 | OLand (v : option Q)
 | OTakeOff (h : option Q) (v : option Q)
+| OWait (d : Q)                 (* time.sleep(d) in the user's body *)
 | ORaise.
 
 Definition qzero : qitem := QVel 0 0 0 0.
@@ -285,6 +286,7 @@ Definition plain_acts (E : env) (defh : Q) (fl : bool) (o : op) : list act * opt
   | OStartLinear vx vy vz yaw => setvel fl vx vy vz (dflt yaw 0)
   | OTakeOff h v => takeoff_acts E defh fl h v
   | OLand _ => ([], None)
+  | OWait d => ([ASleep d], None)
   | ORaise => ([], Some UserErr)
   end.
 
@@ -381,7 +383,9 @@ Inductive hop :=
 
 Definition qabs (q : Q) : Q := if Qltb q 0 then - q else q.
 
+(* go_to with F17c applied: raises on the ground, like MotionCommander._set_vel_setpoint *)
 Definition h_goto (sq : Q -> Q) (x y z : Q) (v : option Q) (s : hst) : hst * option exn :=
+  if negb (hfly s) then (s, Some NotFlying) else
   let dx := x - hx s in let dy := y - hy s in let dz := z - hz s in
   let dist := sq (dx * dx + dy * dy + dz * dz) in
   if Qltb 0 dist then
